@@ -85,10 +85,11 @@ Proof.
   induction q as [|y r IH]; simpl; [reflexivity|]. destruct (o_conn y =? c); simpl; [reflexivity|rewrite IH; reflexivity].
 Qed.
 
-Lemma do_action_inv a b b' hs : inv b -> do_action a b = Some (b', hs) -> inv b'.
+Lemma do_action_queues a b b' hs : inv b -> do_action a b = Some (b', hs) -> Forall gq (b_services b').
 Proof.
-  unfold inv. intros Hinv. fold gq in *.
-  assert (Hl : forall k q, lookup (b_services b) k = Some q -> good_queue q) by (intros k q; apply (inv_lookup b k q Hinv)).
+  intros Hinv0.
+  assert (Hl : forall k q, lookup (b_services b) k = Some q -> good_queue q) by (intros k q; apply (inv_lookup b k q Hinv0)).
+  destruct Hinv0 as [Hinv _]. fold gq in Hinv.
   destruct a as [c|k c flags|k c flags|k c flags|k flags|k c|k|k|c r|c r|p|p]; simpl.
   - intros H; inversion H; subst; exact Hinv.
   - destruct (lookup (b_services b) k); [discriminate|]. intros H; inversion H; subst; simpl.
@@ -115,7 +116,7 @@ Proof.
       apply andb_true_iff in Hrf. destruct Hrf as [Hh Ht]. split.
       * simpl. rewrite Hh, Ht, (find_owner_live _ _ _ Hlive Ef). reflexivity.
       * pose proof (nodup_remove_first c q Hnd) as Hn1. pose proof (removed_notin c q Hnd) as Hn2. rewrite Er in Hn1, Hn2.
-        rewrite (find_owner_conn _ _ _ Ef).
+        simpl. rewrite (find_owner_conn _ _ _ Ef).
         apply (Permutation_NoDup (l := c :: conns (h :: t))); [simpl; apply perm_swap|]. constructor; assumption.
     + intros H; inversion H; subst; simpl. apply Forall_set_queue; [|exact Hinv]. intros k'. unfold gq; simpl. split; [|split].
       * destruct q; [congruence|]. simpl. destruct (o_conn o0 =? c); discriminate.
@@ -139,14 +140,48 @@ Proof.
     destruct (Hl _ _ El) as (_ & Hlive & Hnd). simpl in Hlive.
     apply Forall_set_queue; [|exact Hinv]. intros k'. unfold gq; simpl. split; [discriminate|]. split.
     + apply andb_true_iff in Hlive. destruct Hlive as [Hp Hr]. apply andb_true_iff in Hr. destruct Hr as [Hn Hr].
-      rewrite Hp, Hn, Hr. reflexivity.
-    + apply (Permutation_NoDup (l := o_conn p :: o_conn n :: map o_conn rest)); [apply perm_swap|exact Hnd].
+      simpl. rewrite Hp, Hn, Hr. reflexivity.
+    + simpl. apply (Permutation_NoDup (l := o_conn p :: o_conn n :: map o_conn rest)); [apply perm_swap|exact Hnd].
   - intros H; inversion H; subst; exact Hinv.
   - destruct (find_conn (b_conns b) c) as [cn|]; [|discriminate].
     destruct (existsb (N.eqb r) (c_rules cn)); [|discriminate]. intros H; inversion H; subst; exact Hinv.
   - intros H; inversion H; subst; exact Hinv.
   - destruct (existsb (pend_eqb p) (b_pending b)); [|discriminate]. intros H; inversion H; subst; exact Hinv.
 Qed.
+
+Lemma keys_put_queue ss k q : NoDup (map fst ss) -> NoDup (map fst (put_queue ss k q)).
+Proof.
+  intros H. unfold put_queue. destruct q; [apply keys_del_nodup; exact H|rewrite keys_set_queue; exact H].
+Qed.
+
+Lemma do_action_keys a b b' hs : inv b -> do_action a b = Some (b', hs) -> NoDup (map fst (b_services b')).
+Proof.
+  intros [_ Hk].
+  destruct a as [c|k c flags|k c flags|k c flags|k flags|k c|k|k|c r|c r|p|p]; simpl.
+  - intros H; inversion H; subst; exact Hk.
+  - destruct (lookup (b_services b) k) eqn:El; [discriminate|]. intros H; inversion H; subst; simpl.
+    rewrite map_app. simpl. apply (Permutation_NoDup (l := k :: map fst (b_services b))); [apply Permutation_cons_append|].
+    constructor; [apply lookup_none_notin; exact El|exact Hk].
+  - destruct (lookup (b_services b) k) as [[|h t]|]; try discriminate.
+    destruct (find_owner (h :: t) c); [discriminate|]. intros H; inversion H; subst; simpl. rewrite keys_set_queue; exact Hk.
+  - destruct (lookup (b_services b) k) as [q|]; [|discriminate]. destruct (find_owner q c); [|discriminate].
+    destruct (has_flag flags DBUS_NAME_FLAG_REPLACE_EXISTING).
+    + destruct (remove_first (is_conn c) q); [discriminate|]. intros H; inversion H; subst; simpl. rewrite keys_set_queue; exact Hk.
+    + intros H; inversion H; subst; simpl. rewrite keys_set_queue; exact Hk.
+  - destruct (lookup (b_services b) k) as [[|p w]|]; try discriminate. intros H; inversion H; subst; simpl. rewrite keys_set_queue; exact Hk.
+  - destruct (lookup (b_services b) k) as [q|]; [|discriminate]. destruct (find_owner q c); [|discriminate].
+    intros H; inversion H; subst; simpl. apply keys_put_queue; exact Hk.
+  - destruct (lookup (b_services b) k) as [[|p rest]|]; try discriminate. intros H; inversion H; subst; simpl. apply keys_put_queue; exact Hk.
+  - destruct (lookup (b_services b) k) as [[|p [|n rest]]|]; try discriminate. intros H; inversion H; subst; simpl. rewrite keys_set_queue; exact Hk.
+  - intros H; inversion H; subst; exact Hk.
+  - destruct (find_conn (b_conns b) c) as [cn|]; [|discriminate].
+    destruct (existsb (N.eqb r) (c_rules cn)); [|discriminate]. intros H; inversion H; subst; exact Hk.
+  - intros H; inversion H; subst; exact Hk.
+  - destruct (existsb (pend_eqb p) (b_pending b)); [|discriminate]. intros H; inversion H; subst; exact Hk.
+Qed.
+
+Lemma do_action_inv a b b' hs : inv b -> do_action a b = Some (b', hs) -> inv b'.
+Proof. intros Hi Hd. split; [eapply do_action_queues; eauto|eapply do_action_keys; eauto]. Qed.
 
 Lemma interp_inv A (p : prog A) F : forall s, inv (s_bus s) ->
   match interp F p s with
